@@ -129,8 +129,14 @@ fn tilejson_case_with(rt: &tokio::runtime::Runtime, dir: &Path, case: &Value, n:
 		tj.set_list("data", vec!["x".into(), "y\"z".into()]).unwrap();
 		rest.push(("data".into(), json!({"t":"a","v":[{"t":"s","v":string_to_cps("x")},{"t":"s","v":string_to_cps("y\"z")}]})));
 	}
-	let doc_bounds = [-180.0, -85.5, 170.0, 80.0]; // contains the stored tiles (south-west corner tiles)
-	if d["bounds"] == 1 {
+	// 1: contains the stored tiles (south-west corner tiles); 2 / 3: a point / a meridian line INSIDE the south-west corner tile
+	// of every stored level (levels <= 9): boxes of zero area are boxes
+	let doc_bounds = match d["bounds"].as_u64().unwrap_or(0) {
+		2 => [-179.99, -85.04, -179.99, -85.04],
+		3 => [-179.99, -85.045, -179.99, -85.04],
+		_ => [-180.0, -85.5, 170.0, 80.0],
+	};
+	if d["bounds"].as_u64().unwrap_or(0) >= 1 {
 		tj.bounds = Some(GeoBBox(doc_bounds[0], doc_bounds[1], doc_bounds[2], doc_bounds[3]));
 	}
 	if d["center"] == 1 {
@@ -169,7 +175,7 @@ fn tilejson_case_with(rt: &tokio::runtime::Runtime, dir: &Path, case: &Value, n:
 				let ob: Option<Vec<f64>> = o.get("bounds").and_then(|b| b.as_array()).map(|a| a.iter().map(|x| x.as_f64().unwrap_or(f64::NAN)).collect());
 				// observations: the document's bounds (if it had any) and the bounds read back, in millionths of a degree
 				let e6 = |b: &[f64]| b.iter().map(|v| (v * 1e6).round().clamp(-2e9, 2e9) as i64).collect::<Vec<_>>();
-				ev["doc_bounds_e6"] = if d["bounds"] == 1 { json!(e6(&doc_bounds)) } else { json!([]) };
+				ev["doc_bounds_e6"] = if d["bounds"].as_u64().unwrap_or(0) >= 1 { json!(e6(&doc_bounds)) } else { json!([]) };
 				ev["out_bounds_e6"] = match &ob { Some(b) => json!(e6(b)), None => json!([]) };
 				ev["out_has_bounds"] = json!(ob.is_some() as u8);
 				let mut rest_out = o.clone();
